@@ -822,3 +822,29 @@ Proof. vm_compute. reflexivity. Qed.
 
 Example diamond4_orig_panics : run_orig_data diamond4 = Panic InsertTwice.
 Proof. vm_compute. reflexivity. Qed.
+
+(* non-vacuity of the hypotheses of the two semantic theorems: the chain of three impls with
+   trait references 0 = I32, 1 = Vec<Vec<I32>>-like (only impls 0, 1), 2 = Vec<I32> (all three) *)
+Definition chain3_applies (i x : nat) : Prop :=
+  match i with 0 => True | 1 => x = 1 \/ x = 2 | _ => x = 2 end.
+
+Example semantics_nonvacuous :
+  let d := mat (in_disjoint chain3) in
+  let s := mat (in_specializes chain3) in
+  (forall l r, d l r = true -> forall y, chain3_applies l y -> chain3_applies r y -> False) /\
+  (forall a b, s a b = true -> forall y, chain3_applies b y -> chain3_applies a y) /\
+  (exists y, chain3_applies 1 y) /\
+  (forall y, chain3_applies 1 y -> chain3_applies 0 y) /\
+  (exists y, chain3_applies 0 y /\ ~ chain3_applies 1 y) /\
+  prio_of [(0, 0); (1, 1); (2, 2)] 0 < prio_of [(0, 0); (1, 1); (2, 2)] 1.
+Proof.
+  cbv zeta. split; [|split; [|split; [|split; [|split]]]].
+  - intros l r H. exfalso.
+    destruct l as [|[|[|[|l]]]]; destruct r as [|[|[|[|r]]]]; simpl in H; discriminate.
+  - intros a b H y Hb.
+    destruct a as [|[|[|[|a]]]]; destruct b as [|[|[|[|b]]]]; simpl in H; try discriminate; simpl in *; auto.
+  - exists 1. simpl. auto.
+  - intros y _. exact I.
+  - exists 0. simpl. split; [exact I | intros [H|H]; discriminate].
+  - vm_compute. auto.
+Qed.
